@@ -182,6 +182,12 @@ func main() {
 				transMapTrace(2000000+i, *seed*1000003+int64(i), t, enc)
 			}
 		}
+		if *profile == "follow" {
+			for _, t := range directedShapes(rand.New(rand.NewSource(*seed)), *n) {
+				i++
+				transFollowTrace(3000000+i, *seed*1000003+int64(i), t, enc)
+			}
+		}
 	case "path":
 		enc, done := openOut(*out)
 		defer done()
